@@ -506,13 +506,18 @@ func (r *Recomposer) recomp(v any, rv reflect.Value) {
 			var has bool
 			if m, has = vm[k]; !has {
 				// Fall back to the field name, but never to a key that belongs to another field.
-				for _, alt := range []string{sf.Name, lowerFirst(sf.Name), strings.ToLower(sf.Name)} {
+				for i := 0; i < 3 && !has; i++ {
+					alt := sf.Name
+					switch i {
+					case 1:
+						alt = lowerFirst(sf.Name)
+					case 2:
+						alt = strings.ToLower(sf.Name)
+					}
 					if _, taken := im[alt]; taken && alt != k {
 						continue
 					}
-					if m, has = vm[alt]; has {
-						break
-					}
+					m, has = vm[alt]
 				}
 			}
 			if has && m != nil {
